@@ -212,21 +212,34 @@ def run(ctx):
     n_sites = 0
     for c in repo.subclasses(base):
         for m in c.methods.values():
+            sites = []
             for n in walk_no_nested(m.node):
-                if not isinstance(n, ast.Call):
-                    continue
-                fn = n.func
-                name = fn.id if isinstance(fn, ast.Name) else (fn.attr if isinstance(fn, ast.Attribute) else None)
-                is_ctor = isinstance(fn, ast.Name) and fn.id in CLASSES
-                is_copy = isinstance(fn, ast.Attribute) and fn.attr == "from_samples"
-                if not (is_ctor or is_copy):
-                    continue
+                if isinstance(n, ast.Call):
+                    fn = n.func
+                    if (isinstance(fn, ast.Name) and fn.id in CLASSES) or (isinstance(fn, ast.Attribute) and fn.attr == "from_samples"):
+                        sites.append(n)
+            if not sites:
+                continue
+            evm = Evaluator(repo, max_depth=0, assume=lambda cnd: None)
+            try:
+                evm.run(m, c)
+            except Exception:
+                evm = None
+            for n in sites:
                 n_sites += 1
-                kw = {k.arg: k.value for k in n.keywords}
-                d = kw.get("dtype")
-                ok = d is not None and isinstance(d, ast.Attribute) and d.attr == "dtype" and isinstance(d.value, ast.Name) and d.value.id == m.params[0]
+                name = n.func.id if isinstance(n.func, ast.Name) else n.func.attr
+                val = None
+                if evm is not None:
+                    for e in evm.events:
+                        if e.node is n:
+                            val = dict(e.kwargs).get("dtype")
+                ok = val == self_attr("dtype")
+                if val is None:
+                    kw = {k.arg: k.value for k in n.keywords}
+                    d = kw.get("dtype")
+                    ok = d is not None and isinstance(d, ast.Attribute) and d.attr == "dtype" and isinstance(d.value, ast.Name) and d.value.id == m.params[0]
                 ctx.decide(ok, "C15.pop", f"{m.ident}", loc_of(m, n),
-                           f"{name}(...) receives dtype=self.dtype",
+                           f"{name}(...) receives the sampler's dtype",
                            f"{name}(...) at line {n.lineno} is built without the sampler's dtype: a precision requested by the user is not the precision of this population",
                            disc=f"{name}#{_rank(m, n)}")
     ctx.floor("sample-set constructions inside samplers", n_sites, 12)
@@ -304,6 +317,8 @@ MUTANTS += [
     M("to_numpy returns something else on the fallback path", _U, "except (ValueError, NotImplementedError):\n        return np.asarray(x, **kwargs)", "except (ValueError, NotImplementedError):\n        return np.zeros_like(x)", "C15.helpers"),
 ]
 NEUTRALS = [
+    M("sampler dtype through a local", "src/aspire/samplers/importance.py", "x, log_q = self.prior_flow.sample_and_log_prob(n_samples)\n        samples = Samples(\n            x,\n            log_q=log_q,\n            xp=self.xp,\n            parameters=self.parameters,\n            dtype=self.dtype,",
+      "x, log_q = self.prior_flow.sample_and_log_prob(n_samples)\n        precision = self.dtype\n        samples = Samples(\n            x,\n            log_q=log_q,\n            xp=self.xp,\n            parameters=self.parameters,\n            dtype=precision,"),
     M("to_namespace builds its keywords first", _S, "return self.__class__(\n            x=self.x,\n            parameters=self.parameters,\n            log_likelihood=self.log_likelihood,\n            log_prior=self.log_prior,\n            log_q=self.log_q,\n            xp=xp,\n            device=self.device,\n            dtype=dtype,\n        )",
       "kw = dict(x=self.x, parameters=self.parameters, log_likelihood=self.log_likelihood, log_prior=self.log_prior, log_q=self.log_q)\n        kw[\"xp\"] = xp\n        kw[\"device\"] = self.device\n        kw[\"dtype\"] = dtype\n        return self.__class__(**kw)"),
     M("to_namespace keyword order", _S, "xp=xp,\n            device=self.device,\n            dtype=dtype,", "dtype=dtype,\n            xp=xp,\n            device=self.device,"),
